@@ -119,6 +119,7 @@ instance : Scalar Float where
   mul := (· * ·)
   neg := fun x => -x
   inv := fun x => Float.pow x (-1.0)
+  div := (· / ·)
   pow := Float.pow
   powInt := fun x n => Float.pow x (Float.ofInt n)
   fn := floatFn
@@ -128,6 +129,7 @@ instance : Scalar Float where
   trunc := floatTrunc
   isZero := fun x => x == 0.0
   beq := fun x y => x == y
+  solveEq := fun x y => x == y || (x - y).abs ≤ 1e-9 * (if x.abs > y.abs then x.abs else y.abs)
   finite := fun x => x.isFinite
 
 end Blackbird
